@@ -195,13 +195,22 @@ def precondition(U, op):
         return (all(x._source is not unit for x in unit.ins) and all(x._sink is not unit for x in unit.outs)), False
     if n == 'udisc': return True, False
     if n == 'uinsert':
+        # one fixed outlet; one fixed inlet (the unit's inlet takes the stream's place at its source) or a
+        # variable number of inlets (the stream itself is appended, as in the docstring's M1.insert(P1-0))
         unit = U.units[op[1]]; s = U.arg(op[2])
         if not is_obj(s): return True, True
-        if not (unit._ins_size_is_fixed and unit._outs_size_is_fixed and unit._N_ins == 1 and unit._N_outs == 1):
+        if not (unit._outs_size_is_fixed and unit._N_outs == 1 and (not unit._ins_size_is_fixed or unit._N_ins == 1)):
             return False, True
-        if s._sink is None or s._source is None: return False, True
-        if U.uid(s._sink) == 999 or U.uid(s._source) == 999: return False, False
-        y, z = unit.outs[0], unit.ins[0]
+        if s._sink is None: return False, True
+        if U.uid(s._sink) == 999: return False, False
+        y = unit.outs[0]
+        k = idx(s, list(s._sink.ins))
+        if not unit._ins_size_is_fixed:
+            if k is None: return False, True        # ValueError, then nothing is appended
+            return (pre_set(s._sink.ins, k, y) and y is not s), True
+        if s._source is None: return False, True
+        if U.uid(s._source) == 999: return False, False
+        z = unit.ins[0]
         selfloop = (y._sink is unit) or (s._sink is unit) or (s._source is unit)
         ok = pre_replace(s._sink.ins, s, y) and pre_replace(s._source.outs, s, z)
         return ok, not selfloop
@@ -542,7 +551,7 @@ def member(rng, U, sd, u):
 
 OPS = ['set'] * 10 + ['slice'] * 6 + ['insert'] * 3 + ['append'] * 4 + ['extend'] * 2 + ['replace'] * 4 + ['pop'] * 4 + \
       ['remove'] * 4 + ['clear'] * 1 + ['empty'] * 1 + ['disc'] * 4 + ['discboth'] * 2 + ['uu'] * 3 + ['udisc'] * 2 + \
-      ['uinsert'] * 3 + ['take'] * 2 + ['repl'] * 2 + ['reconnect'] * 2 + ['new'] * 1
+      ['uinsert'] * 4 + ['take'] * 2 + ['repl'] * 2 + ['reconnect'] * 2 + ['new'] * 1
 
 def gen_op(rng, U, valid):
     nu = len(U.units)
@@ -608,9 +617,14 @@ def gen_op(rng, U, valid):
     if n == 'udisc': return ['udisc', u, rng.random() < 0.5]
     if n == 'uinsert':
         if valid:
-            vs = [v for v in range(nu) if fixed_of(U, 'i', v) == (True, 1) and fixed_of(U, 'o', v) == (True, 1)]
-            c = [k for k, s in enumerate(U.streams) if s._sink is not None and s._source is not None]
-            if vs and c: return ['uinsert', rng.choice(vs), ['S', rng.choice(c)]]
+            vs = [v for v in range(nu) if fixed_of(U, 'o', v) == (True, 1)
+                  and (fixed_of(U, 'i', v) == (True, 1) or not fixed_of(U, 'i', v)[0])]
+            if vs:
+                v = rng.choice(vs)
+                need_source = fixed_of(U, 'i', v)[0]
+                c = [k for k, s in enumerate(U.streams) if s._sink is not None and (s._source is not None or not need_source)
+                     and s is not U.units[v].outs[0]]
+                if c: return ['uinsert', v, ['S', rng.choice(c)]]
         return ['uinsert', u, rand_arg(rng, U, 0.9)]
     if n == 'take': return ['take', u, rng.randrange(nu)]
     if n == 'repl': return ['repl', u, rng.choice([None, rng.randrange(nu)])]
@@ -687,7 +701,7 @@ def alphabet(units, ns):
                   ['replace', sd, u, ['At', sd, u, 0], ['S', 2]]]
         for s in range(2):
             A.append(['disc', sd, ['S', s]])
-    A += [['uu', 0, 1], ['uu', 1, 2], ['uu', 2, 0], ['uu', 1, 1], ['udisc', 1, True], ['udisc', 0, False], ['uinsert', 0, ['S', 0]],
+    A += [['uu', 0, 1], ['uu', 1, 2], ['uu', 2, 0], ['uu', 1, 1], ['udisc', 1, True], ['udisc', 0, False], ['uinsert', 0, ['S', 0]], ['uinsert', 1, ['S', 1]],
           ['take', 2, 1], ['repl', 1, None], ['repl', 0, 2], ['discboth', ['S', 0]], ['empty', 'i', 1], ['clear', 'o', 2],
           ['extend', 'i', 1, [['S', 3], ['S', 4]]]]
     return A
